@@ -46,14 +46,17 @@ Pool == { R("min", NV(N0)), R("min", NV(N7)), R("max", NV(N10)), R("max", NV(N0)
           R("minLength", NV(<<49, 56, 52, 52, 54, 55, 52, 52, 48, 55, 51, 55, 48, 57, 53, 53, 49, 54, 49, 57>>)), R("minItems", NV(<<49, 56, 52, 52, 54, 55, 52, 52, 48, 55, 51, 55, 48, 57, 53, 53, 49, 54, 49, 54>>)),
           R("type", IdV("integer")), R("type", IdV("float")), R("type", IdV("string")), R("type", IdV("decimal")), R("type", IdV("email")),
           R("type", IdV("boolean")), R("type", IdV("null")), R("type", IdV("object")), R("type", IdV("array")),
-          R("type", IdV("any")), R("type", IdV("enum")), R("type", IdV("mixed")), R("type", TRef("@T")), R("foo", BV(TRUE)) }
+          R("type", IdV("any")), R("type", IdV("enum")), R("type", IdV("mixed")), R("type", TRef("@T")), R("foo", BV(TRUE)),
+          \* a quoted name is the name as written: blanks inside the quotes make it another, unknown name
+          R("min ", NV(N0)),
+          R("or", [t |-> "list", items |-> <<[t |-> "set", rules |-> <<R("type", IdV("string")), R(" minLength", NV(N1))>>], IdV("integer"), IdV("float"), IdV("boolean"), IdV("null")>>]) }
 SmallPool == { R("min", NV(N0)), R("max", NV(N10)), R("max", NV(N0)), R("exclusiveMinimum", BV(TRUE)), R("exclusiveMaximum", BV(FALSE)), R("precision", NV(N2)),
                R("minLength", NV(N1)), R("maxLength", NV(N10)), R("regex", RegexA), R("minItems", NV(N1)), R("maxItems", NV(N5)),
                R("additionalProperties", BV(TRUE)), R("optional", BV(TRUE)), R("nullable", BV(FALSE)), R("nullable", BV(TRUE)), R("const", BV(FALSE)),
                R("enum", [t |-> "list", items |-> AllKinds]), R("or", [t |-> "list", items |-> <<IdV("integer"), IdV("float"), IdV("string"), IdV("boolean"), IdV("null")>>]),
                R("type", IdV("decimal")), R("type", IdV("email")), R("type", IdV("any")), R("type", TRef("@T")), R("type", IdV("string")) }
 TinyPool == { R("nullable", BV(FALSE)), R("const", BV(FALSE)), R("min", NV(N0)), R("type", TRef("@T")),
-              R("or", [t |-> "list", items |-> <<IdV("integer"), IdV("float"), IdV("string"), IdV("boolean"), IdV("null")>>]), R("optional", BV(TRUE)) }
+              R("or", [t |-> "list", items |-> <<IdV("integer"), IdV("float"), IdV("string"), IdV("boolean"), IdV("null")>>]), R("optional", BV(TRUE)), R(" min", NV(N0)) }
 CompanionPool == { R("enum", [t |-> "list", items |-> AllKinds]), R("optional", BV(TRUE)), R("nullable", BV(TRUE)), R("const", BV(FALSE)), R("nullable", BV(FALSE)),
                    R("type", TRef("@T")) }
 Kinds == {"int", "flt", "str", "bool", "null", "obj0", "obj1", "arr0", "arr2"}
